@@ -123,7 +123,7 @@ func (l *language) templates(g *grammar.Grammar) []file {
 	}
 	if g.Parser.Types != nil {
 		ret = append(ret, l.Types...)
-		if g.Options.GenSelector || g.Options.EventFields {
+		if g.Options.GenSelector || g.Options.EventFields || g.Options.EventAST {
 			ret = append(ret, l.Selector...)
 		}
 		if g.Options.EventAST {
